@@ -108,7 +108,7 @@ func init() {
 					os.WriteFile(full, []byte(cliContent(e.Cls, tag)), 0o644)
 				}
 			}
-			q := cliQueries(fl.Q, k)
+			q := cliQueries(fl.Q, k, fl.M)
 			args := []string{"-x", q.expr}
 			args = append(args, q.args...)
 			for _, f := range []struct {
